@@ -626,6 +626,8 @@ def corr_accept(ctx) -> None:
         tx._is_active, tx._is_committed, tx._is_rolled_back, tx._operations = True, False, False, []
         tx.file_manager = _FM()
         tx._resolve_table_schema = lambda: None
+        tx._protect_adopted_files = lambda files: None      # GC protection of adopted files (C06) is not what is compared here
+        tx._with_verified_bounds = lambda f, schema: f       # nor the recomputation of supplied statistics (C11)
         try:
             tx.append_files([DataFile(file_path=pth, file_format=FileFormat.PARQUET, partition_values={}, record_count=1, file_size_in_bytes=1)])
             real.append(len(tx._operations) == 1)
